@@ -1022,6 +1022,36 @@ r3:
 				r.Check(len(short) == 0 && anyOf(NEXT), "C18.R4", "MemberSet.Except:no-shortcut", "every result of Except comes from a scan of the receiver's members (or the receiver is empty)", w.fnPos(except),
 					"Except returns at "+strings.Join(short, ", ")+" without having looked at the receiver's members: a member that was replaced by another one in a single update is reported neither as joined nor as left")
 			}
+			// a *Member that was handed out (to the agent's view, in an event, in a report) never changes afterwards: a
+			// member that comes back with other kinds is a new *Member, reported as a change of the set
+			{
+				memT := w.Named("cluster", "Member")
+				var writers []string
+				for _, fn := range w.Funcs {
+					if !w.isLib(fn) || fnPkgPath(fn) != modPath+"/cluster" || strings.Contains(w.Fset.Position(fn.Pos()).Filename, ".pb.go") {
+						continue
+					}
+					for _, in := range w.insOf(fn) {
+						st, ok := in.(*ssa.Store)
+						if !ok {
+							continue
+						}
+						fa, ok := st.Addr.(*ssa.FieldAddr)
+						if !ok {
+							continue
+						}
+						if _, nm := fieldName(fa); !sameNamed(nm, memT) {
+							continue
+						}
+						if _, fresh := fa.X.(*ssa.Alloc); fresh {
+							continue
+						}
+						writers = append(writers, fname(fn)+" at "+w.pos(st.Pos()))
+					}
+				}
+				r.Check(len(writers) == 0, "C18.R4", "Member:immutable", "no field of a *Member is written after the member was built", w.fnPos(except),
+					fmt.Sprintf("written by %v: the agent's view changes behind its back (Members() shows kinds that HasKind denies) with no join or leave", writers))
+			}
 		}
 		sl := mk("Slice")
 		okS := false
@@ -1851,6 +1881,11 @@ func checkC19(w *World, r *Report) {
 	{
 		// what a member offers is what the cluster has registered when it is asked: Member() is computed from the kinds on
 		// every call (kinds may be registered after a first call and before Start)
+		if pf := w.Method("cluster", "Cluster", "PID"); pf != nil {
+			okP, why := w.returnsOnly(pf, "P0.agentPID")
+			r.Check(okP, "C19.R6", "Cluster.PID", "Cluster.PID() is the PID of the agent that was spawned (not one rebuilt from the configuration)", w.fnPos(pf),
+				why+": with a caller-supplied engine the rebuilt address is not the engine's; what the provider reports to the agent goes to an address nobody listens on")
+		}
 		if mf := w.Method("cluster", "Cluster", "Member"); mf != nil {
 			mg := w.FGI(mf)
 			okF := true
@@ -1992,6 +2027,9 @@ func checkC19(w *World, r *Report) {
 		importRules(w, r, checkC17, "C17", "C19.R7", func(o *Obligation) bool { return o.Rule == "C17.R3" && strings.Contains(o.Key, "Shutdown") })
 		// a member leaves the view only when the reported address is a member's (C20.R3: GetByHost answers nil otherwise)
 		importRules(w, r, checkC20, "C20", "C19.R7", func(o *Obligation) bool { return o.Rule == "C20.R3" && strings.Contains(o.Key, "GetByHost") })
+		// the activation table is keyed by the id the engine gives the actor, and activate tests kind+"/"+id: the two agree
+		// because process ids are built as kind + separator + id, verbatim (C10.R5)
+		importRules(w, r, checkC10, "C10", "C19.R7", func(o *Obligation) bool { return o.Rule == "C10.R5" })
 	}
 }
 
@@ -2120,6 +2158,11 @@ func checkC20(w *World, r *Report) {
 	// R2, R3, R5: membership protocol of the provider (rules_cluster2.go)
 	checkC20Membership(w, r, recv, smT, addM)
 	checkHandshakesOut(w, r, "C20.R2")
+	if pf := w.Method("cluster", "Cluster", "PID"); pf != nil {
+		okP, why := w.returnsOnly(pf, "P0.agentPID")
+		r.Check(okP, "C20.R3", "Cluster.PID", "the agent the provider reports to (Cluster.PID()) is the agent that was spawned", w.fnPos(pf),
+			why+": with a caller-supplied engine a PID rebuilt from the configuration names an address nobody listens on: the agent is never told")
+	}
 	if r.Prop == "C20" {
 		// the provider's protocol messages travel through its inbox ring (C14) and through stream writers that the router
 		// forgets when they end (C17.R3), so that a member that comes back on the same address is answered
@@ -2603,6 +2646,38 @@ func checkActivationTable(w *World, r *Report, a *clusterAnchors) {
 				_ = present
 				if e.direct && len(absent) > 0 && !g.OnlyVia(absent, e.n) {
 					ok = false
+				}
+			}
+		}
+		if ok {
+			// every listed activation: an iteration of the loop over the topology's actors records the entry or finds its id
+			// known; nothing else lets an entry pass unrecorded (topologies are sent once per join)
+			g := w.FGI(a.hTopology)
+			bound, _ := g.CondEdges(func(v ssa.Value) (bool, bool) {
+				b, isB := v.(*ssa.BinOp)
+				return true, isB && b.Op == token.LSS && w.pathOf(b.Y) == "len(P1.Actors)"
+			})
+			A := make([]bool, len(g.ins))
+			cut := map[Edge]bool{}
+			for _, e := range ad {
+				A[e.n] = true
+				present, _ := knownEdges(w, g, e.x+".ID")
+				for _, pe := range present {
+					cut[pe] = true
+				}
+			}
+			if len(bound) == 0 {
+				ok = false
+			}
+			for _, e := range bound {
+				rr := g.reach([]int{e.to}, A, cut)
+				if rr[e.from] {
+					ok = false
+				}
+				for _, x := range g.returns {
+					if rr[x] {
+						ok = false
+					}
 				}
 			}
 		}
